@@ -158,6 +158,10 @@ def process_mode(run, rng, n):
 def replay(path):
     import json
     d = json.load(open(path))
+    if d['replay'].get('kind') == 'process-exit-condition':
+        from jugverif import procmode
+        print(d['what'])
+        return core.replay_family('C12', d['key'], lambda run: procmode.exit_condition_family(run, [d['replay']['condition']]))
     if d['replay'].get('kind') == 'process':
         import signal
         from jugverif import procmode
